@@ -2,6 +2,7 @@
 
 import typing
 import typing as t
+from unicodedata import normalize
 
 from . import nodes
 from .exceptions import TemplateAssertionError
@@ -408,7 +409,9 @@ class Parser:
                 self.stream.expect("comma")
             arg = self.parse_assign_target(name_only=True)
             arg.set_ctx("param")
-            if any(a.name == arg.name for a in args):
+            # Python compares identifiers in their NFKC form
+            arg_id = normalize("NFKC", arg.name)
+            if any(normalize("NFKC", a.name) == arg_id for a in args):
                 self.fail(f"duplicate argument {arg.name!r} in signature", arg.lineno)
             if self.stream.skip_if("assign"):
                 defaults.append(self.parse_expression())
@@ -913,7 +916,8 @@ class Parser:
                     # Parsing a kwarg
                     ensure(dyn_kwargs is None)
                     key = self.stream.current.value
-                    if any(k.key == key for k in kwargs):
+                    key_id = normalize("NFKC", key)
+                    if any(normalize("NFKC", k.key) == key_id for k in kwargs):
                         self.fail(
                             f"duplicate keyword argument {key!r}",
                             self.stream.current.lineno,
